@@ -36,7 +36,7 @@ def h_render(ctx, shape, taglen, datalen, maxgap, cdata, tagprefix=""):
     ctx.check("the parsed tree has exactly the tags, nesting, order and trimmed data of the document", same_tree(ctx, out, spec))
 
 
-HARNESSES = dict(render=h_render)
+HARNESSES = dict(render=h_render, long_body=None)
 
 META = dict(
     bounds=dict(trees="all ordered tree skeletons with <= 3 (quick) / 4 (thorough) nodes; childless nodes are data leaves or empty aggregates (symbolic)",
@@ -47,6 +47,37 @@ META = dict(
             "C-faithful TreeBuilder state machine"],
     assumptions=["oracle = the source tree from which an independent renderer (harness/render.py) produced the text"],
 )
+
+
+def h_long_body(ctx, total):
+    """a body of several thousand characters (a statement with a few hundred data elements): the element whose data touches or
+    straddles a power-of-two offset (where block-wise scanners cut) and its neighbours come out like all the others"""
+    boundary = ctx.choice("boundary", [4096, 8192] if total < 17000 else [4096, 8192, 16384])
+    shift = ctx.choice("shift", [-3, -1, 0])
+    closed = ctx.bool("end_tags")
+    sep = ctx.choice("sep", ["", "\r\n"])
+    data = ctx.str("d", 3, [(0x30, 0x39), (0x41, 0x5A)])
+    unit = len("<A>0000000000") + (len("</A>") if closed else 0) + len(sep)
+    k = (boundary + shift - len("<OFX>") - len("<A>")) // unit            # index of the element whose data starts near the boundary
+    pad = (boundary + shift - len("<OFX>") - len("<A>")) - k * unit       # extra characters in front of it (put into element k-1's data)
+    n = total // unit
+    parts, want = [], []
+    for i in range(n):
+        t = ("%010d" % i) if i != k else data
+        if i == k - 1:
+            t = t + "x" * pad
+        want.append(t)
+        parts.append("<A>" + t + ("</A>" if closed else "") + sep)
+    text = "<OFX>" + "".join(parts) + "</OFX>"
+    out, err = parse(ctx, text)
+    ctx.check("a well-formed rendering is accepted", out is not None)
+    if out is None:
+        return
+    ctx.check("same tree: no element dropped, duplicated or re-parented", len(out) == n and ctx.all([ch.tag == "A" and len(ch) == 0 for ch in out]))
+    if len(out) != n:
+        return
+    near = [i for i in range(max(0, k - 3), min(n, k + 4))] + [0, n - 1]
+    ctx.check("same data text for the elements around the offset and at both ends", ctx.all([(out[i].text or "").strip() == want[i] for i in near]))
 
 
 def instances(tier, seed):
@@ -62,8 +93,13 @@ def instances(tier, seed):
         for cd in (False, True):
             mk(f"render[{sh},cdata={cd}]", dict(shape=sh, taglen=1 if not full else [1, 2], datalen=[1, 2] if not full else [1, 2, 3],
                                                 maxgap=1 if not full else 2, cdata=cd))
+    for total in ((9000,) if not full else (9000, 20000)):
+        out.append(dict(name=f"long_body[{total}]", harness="long_body", fn=h_long_body, params=dict(total=total), opts=dict(wall_s=900, max_paths=5000)))
     # long tag names: 31 fixed characters + 1-2 symbolic ones (the notation sets no limit; 32 is where fixed-size buffers end)
     for sh in (["3b"] if not full else ["2", "3a", "3b", "4d"]):
         mk(f"render[{sh},tags of 32-33 chars]", dict(shape=sh, taglen=[1, 2], datalen=1, maxgap=0 if not full else 1, cdata=False,
                                                      tagprefix="ABCDEFGHIJKLMNOPQRSTUVWXYZ01234"))
     return out
+
+
+HARNESSES["long_body"] = h_long_body
